@@ -156,6 +156,13 @@ def extract(res: Result) -> Dict[str, list]:
                 else:
                     rets.append(({"expr:" + child_text(a)}, {"expr:" + child_text(a)}, guard_text(res, guards)))
     order = []
+    # aliasing: the end block of a child lowered inside a loop may itself be a registered
+    # break/continue block (a body ending in Break()); the later write to .nextBlock wins, so the
+    # children's fall-through edges must be written before the break/continue edges
+    child_edge_idx = [i for i, ev in enumerate(res.events) if ev.short in EDGE_METHODS and isinstance(ev.call.func, ast.Attribute) and any(r.startswith("E(") for r in R.role(ev.call.func.value))]
+    exit_edge_idx = [i for i, ev in enumerate(res.events) if ev.short in EDGE_METHODS and isinstance(ev.call.func, ast.Attribute) and any(r.startswith("each:") for r in R.role(ev.call.func.value))]
+    if child_edge_idx and exit_edge_idx:
+        order.append(("fallthrough-before-break-continue", max(child_edge_idx) < min(exit_edge_idx)))
     if enter_idx or exit_idx:
         order.append(("enter-before-children", bool(enter_idx) and all(enter_idx[0] < t for t in teal_idx)))
         order.append(("exit-after-children", bool(exit_idx) and all(exit_idx[0] > t for t in teal_idx)))
